@@ -565,6 +565,8 @@ static int restore_interior_string (char **val, svalue_t * sv) {
               {
                 while ((c = *cp++) != '"')
                   {
+                    if (c == '\0') /* unterminated string */
+                      return ROB_STRING_ERROR;
                     if (c == '\\')
                       {
                         if (!(*newp++ = *cp++))
@@ -1218,6 +1220,8 @@ int restore_string (char *val, svalue_t * sv) {
               {
                 while ((c = *cp++) != '"')
                   {
+                    if (c == '\0') /* unterminated string */
+                      return ROB_STRING_ERROR;
                     if (c == '\\')
                       {
                         if (!(*newp++ = *cp++))
